@@ -138,7 +138,8 @@ func runC05(c *Ctx) {
 	ruleTransparentChain(c, p, "C05.T")
 	ruleNoMutationOfHTTPDefaults(c, p, "C05.T")
 	ruleWriterMethodSets(c, p, "C05.T")
-	c.Rule("C05.R", "a retried upload hands replayed chunks on without waiting for more backend output", 1)
+	c.Rule("C05.R", "a retried upload hands replayed chunks on without waiting for more backend output; it is refused once the prefix cannot be replayed in full (= C06.R)", 9)
+	c.Borrow(runC06, "C06.R", "C05.R", func(k string) bool { return strings.HasPrefix(k, "seek:") })
 	ruleReplayDoesNotWaitForSource(c, p, "C05.R")
 	c.Rule("C05.L", "the metrics mutex is not on the streaming path", 3)
 	ruleNoLockAcrossRPC(c, p, "C05.L")
